@@ -9,6 +9,9 @@ PROPS = {
         trusted_base=[],
         assumptions=[],
     ),
+    'C02': dict(level='other', proof=None, bounded=['vlib.rtc.c02'], explanation='placeholder', trusted_base=[], assumptions=[]),
+    'C03': dict(level='proof', proof=None, bounded=['vlib.rtc.c03'], explanation='placeholder', trusted_base=[], assumptions=[]),
+    'C06': dict(level='other', proof=None, bounded=['vlib.rtc.c06'], explanation='placeholder', trusted_base=[], assumptions=[]),
 }
 
 NOTES = ('Technique family: contract-based deductive verification of the real code. Proof obligations are generated '
